@@ -110,7 +110,16 @@ def run_case(cs):
                 ad = hist.asc_dir(root, h)
                 ms = world.manifests(root, h)
                 if ms and rng.random() < 0.7:
-                    junk = rng.choice(["._" + ms[-1], ".DS_Store", "notes.txt", "._ascmhl_chain.xml", "Thumbs.db", "ascmhl_chain.xml.tmp", "0099_stale_2020-01-01_000000Z.mhl.tmp"])
+                    junk = rng.choice(["._" + ms[-1], ".DS_Store", "notes.txt", "._ascmhl_chain.xml", "Thumbs.db", "ascmhl_chain.xml.tmp", "0099_stale_2020-01-01_000000Z.mhl.tmp", "backup-copy"])
+                    if junk == "backup-copy":
+                        # somebody keeps a copy of a manifest in a sub folder of the ascmhl folder
+                        bd = os.path.join(ad, rng.choice(["backup", "old", "copy of manifests"]))
+                        if not os.path.exists(bd):
+                            os.makedirs(bd)
+                            shutil.copy2(os.path.join(ad, rng.choice(ms)), bd)
+                            steps.append(f"manifest copied into a sub folder of ascmhl in {h!r}")
+                            cs.count("manifest_copies_in_sub_folder_of_ascmhl")
+                        continue
                     if not os.path.exists(os.path.join(ad, junk)) and len(os.fsencode(junk)) <= 255:
                         with open(os.path.join(ad, junk), "wb") as f:
                             f.write(b"\x00\x05\x16\x07 junk" if not junk.endswith(".tmp") else b"<stale>\n" + b"  <left over by an interrupted run/>\n" * 600)
